@@ -250,3 +250,15 @@ func ParseInts32(s string) []int32 {
 	}
 	return out
 }
+
+// Safe runs f and converts a panic of the code under test into the answer "panic" plus an oracle failure
+// (no property in the list tolerates a panic).
+func (r *Run) Safe(input string, f func() string) (out string) {
+	defer func() {
+		if p := recover(); p != nil {
+			out = "panic"
+			r.IOFail("panic", input, fmt.Sprint(p))
+		}
+	}()
+	return f()
+}
